@@ -238,6 +238,21 @@ def rule_hits(ck):
         ck.ob("mpt.hit_bookkeeping", "should_skip_breakpoint/order", [x for x in order if x in want] == want, f"{order}", g.loc())
         rh = [c for c in g.calls() if c.name.endswith("record_breakpoint_hit")]
         ck.ob("mpt.hit_bookkeeping", "should_skip_breakpoint/lookup-by-stop-address", bool(rh) and "Relocated(arg3)" in expr_str(expr_of(g, rh[0].args[1]), 5), expr_str(expr_of(g, rh[0].args[1]), 5) if rh else "", g.loc())
+    # every recorded hit counts exactly once
+    rh_ = [g for p_, g in prog.fns.items() if p_.endswith("::record_breakpoint_hit")]
+    if rh_:
+        g = rh_[0]
+        cl = prog.with_closures(g.path)
+        incs = [(x, c) for x in cl for c in x.calls() if re.search(r"saturating_add$|checked_add$|wrapping_add$", c.name)]
+        adds = [(x, rv) for x in cl for _, _, pl, rv, _ in x.assigns() if rv["r"] == "bin" and rv["op"].startswith("Add") and pl[-1:] == [".hit_count"]]
+        ok = (len(incs) == 1 and expr_of(incs[0][0], incs[0][1].args[1]) == ("const", 1) and ".hit_count" in expr_str(expr_of(incs[0][0], incs[0][1].args[0]), 5)) or len(adds) == 1
+        ck.ob("mpt.hit_bookkeeping", "record_breakpoint_hit/increments-once-by-one", ok, f"{len(incs)} saturating/checked adds, {len(adds)} plain adds", g.loc())
+        info = [rv for x in cl for _, _, _, rv, _ in x.assigns() if rv["r"] == "agg" and rv["name"].endswith("BreakpointHitInfo")]
+        ok2 = False
+        if info:
+            fm = dict(zip(info[0]["fields"], [expr_str(expr_of(cl[-1] if len(cl) > 1 else g, o), 6) for o in info[0]["ops"]]))
+            ok2 = all(("." + k) in v for k, v in fm.items())
+        ck.ob("mpt.hit_bookkeeping", "record_breakpoint_hit/info-copies-same-named-fields", ok2, "", g.loc())
     # HitCondition::matches operators per variant
     HC = "dap::yadap::session::breakpoint::HitCondition"
     m = ck.anchor(HC + "::matches")
